@@ -338,6 +338,7 @@ class ModuleNormaliser:
         self.flagged = set()      # qualnames normalised heuristically (rename-back)
         self.reshaped = set()
         self.renamed = set()
+        self.inlined = {}
         self.counter = itertools.count()
         self.defs = {}            # qualname -> (FunctionDef, owner node, class name or None)
         self._collect(tree, "", None)
@@ -436,6 +437,10 @@ class ModuleNormaliser:
         if isinstance(f, ast.Attribute) and isinstance(f.value, ast.Name) and cls:
             if f.value.id in ("self", "cls", cls):
                 cand = cls + "." + f.attr
+                # dynamic dispatch: a method name defined in more than one class of the module may be overridden
+                same_name = [k for k in self.defs if k.split(".")[-1] == f.attr and "." in k]
+                if len(same_name) != 1:
+                    return None
                 # class may be nested deeper in prefix: search by suffix
                 for k in self.defs:
                     if (k == cand or k.endswith("." + cand)) and self.is_new_function(k):
@@ -616,6 +621,7 @@ class ModuleNormaliser:
             ast.copy_location(s, st)
             ast.fix_missing_locations(s)
         self.log.append(f"{q}: call of new helper {hq} inlined ({mode})")
+        self.inlined[hq] = self.inlined.get(hq, 0) + 1
         return res
 
     def _hoist_nested_call(self, st, q, cls):
@@ -764,13 +770,14 @@ class ModuleNormaliser:
                 ast.copy_location(new, call)
                 ast.fix_missing_locations(new)
                 self.log.append(f"{q}: call of new helper {hq} inlined (expression)")
+                self.inlined[hq] = self.inlined.get(hq, 0) + 1
                 done = True
         return st if done else None
 
     def _drop_unused_helpers(self):
         for hq, (fn, owner, cls) in list(self.defs.items()):
-            if not self.is_new_function(hq):
-                continue
+            if not self.is_new_function(hq) or not self.inlined.get(hq):
+                continue          # only helpers that were actually inlined somewhere may disappear (a new override is not a helper)
             name = fn.name
             still = False
             for n in ast.walk(self.tree):
